@@ -49,6 +49,9 @@ def gen_cases(tier, seed):
         nk = 3 if si < 2 else 2
         for amask in range(1 << (nk * nk)):
             yield ('M', si, amask)
+    for ri in range(len(RSHAPES)):
+        for amask in range(1 << 4):
+            yield ('MR', ri, amask)
 
 
 def describe(case):
@@ -58,6 +61,8 @@ def describe(case):
     if case[0] == 'P':
         cat = P.catalogue(2, 2, 18)
         return {'part': 'PatternedTensor.solve', 'index_types': list(cat)[case[1]]}
+    if case[0] == 'MR':
+        return {'part': 'multi_mv, rectangular block matrix', 'row_shapes': RSHAPES[case[1]][0], 'column_shapes': RSHAPES[case[1]][1], 'A_block_presence_mask': case[2]}
     if case[0] == 'M':
         return {'part': 'multi_solve/multi_mv', 'shapes': MSHAPES[case[1]], 'A_block_presence_mask': case[2]}
     return {'case': list(case)}
@@ -121,6 +126,8 @@ def run_case(case):
         part_s32(r, case)
     elif case[0] == 'M':
         part_m(case[1], case[2], r, case)
+    elif case[0] == 'MR':
+        part_mr(case[1], case[2], r, case)
     elif case[0] == 'S1':
         _, n, Aflat, bvals, sem, two = case
         judge_s(n, list(Aflat), list(bvals), sem, two, r, case)
@@ -397,6 +404,112 @@ def part_p3(r, case):
 # ---------------------------------------------------------------------------------------------
 
 MSHAPES = [{'x': (), 'y': (), 'z': ()}, {'x': (2,), 'y': (), 'z': (1,)}, {'x': (2,), 'y': (2, 2)}]
+
+
+# rectangular block matrices for multi_mv: row and column index sets share keys whose blocks have different sizes
+RSHAPES = [({'x': (2,), 'y': (2, 2)}, {'x': (3,), 'y': ()}), ({'x': (), 'y': (2,)}, {'y': (3,), 'z': (1, 2)}), ({'x': (2,), 'y': (1,)}, {'y': (2,), 'x': (1,)})]
+
+
+def part_mr(ri, amask, r, case):
+    """multi_mv(a, b) and multi_mv(a, b, transpose=True) against the dense product, a rectangular: every presence
+    pattern of the 4 blocks of a, every presence pattern of the blocks of b, 4 semirings, both key orders."""
+    import torch
+    from fggs.multi import MultiTensor, multi_mv
+    from fggs.indices import PatternedTensor
+    rsh, csh = ({k: torch.Size(v) for k, v in d.items()} for d in RSHAPES[ri])
+    rkeys, ckeys = list(rsh), list(csh)
+    pairs = [(a, b) for a in rkeys for b in ckeys]
+    present = [p for i, p in enumerate(pairs) if amask >> i & 1]
+
+    def offsets(sh, keys):
+        off, o = {}, 0
+        for k in keys:
+            off[k] = o
+            o += sh[k].numel()
+        return off, o
+    roff, NR = offsets(rsh, rkeys)
+    coff, NC = offsets(csh, ckeys)
+    D = [[Fraction(0)] * NC for _ in range(NR)]
+    blocks = {}
+    for c, (a, b_) in enumerate(pairs, 1):
+        if (a, b_) not in present:
+            continue
+        na, nb = rsh[a].numel(), csh[b_].numel()
+        vals = [[Fraction(7 * c + 3 * i + j + 1, 4) if (i + j + c) % 3 else Fraction(0) for j in range(nb)] for i in range(na)]
+        blocks[(a, b_)] = vals
+        for i in range(na):
+            for j in range(nb):
+                D[roff[a] + i][coff[b_] + j] = vals[i][j]
+    for transpose in (False, True):
+        ish, ikeys, ioff, NI = (rsh, rkeys, roff, NR) if transpose else (csh, ckeys, coff, NC)     # the vector's index set
+        osh, okeys, ooff, NO = (csh, ckeys, coff, NC) if transpose else (rsh, rkeys, roff, NR)     # the result's index set
+        M = [[D[j][i] for j in range(NR)] for i in range(NC)] if transpose else D
+        for bmask in range(1 << len(ikeys)):
+            bv = [Fraction(0)] * NI
+            bblocks = {}
+            for i, k in enumerate(ikeys):
+                if bmask >> i & 1:
+                    vals = [Fraction(j + 2 + i, 2) if (j + i) % 4 != 3 else inf for j in range(ish[k].numel())]
+                    bblocks[k] = vals
+                    for j, v in enumerate(vals):
+                        bv[ioff[k] + j] = v
+            for sem in SEMS:
+                for rev in (False, True):
+                    key = (case, bmask, transpose, sem, rev)
+                    S = IR.semiring(sem, 'float64')
+                    zero = S.from_int(0).item()
+                    dt = torch.bool if sem == 'bool' else torch.float64
+                    try:
+                        rd = {k: rsh[k] for k in (rkeys[::-1] if rev else rkeys)}
+                        cd = {k: csh[k] for k in (ckeys[::-1] if rev else ckeys)}
+                        Am = MultiTensor((rd, cd), S)
+                        Bm = MultiTensor(rd if transpose else cd, S)
+                        for (a, b_), vals in blocks.items():
+                            t = torch.tensor([[enc(v, sem) for v in row] for row in vals], dtype=dt).reshape(rsh[a] + csh[b_])
+                            Am[a, b_] = PatternedTensor(t, default=zero)
+                        for k, vals in bblocks.items():
+                            Bm[k] = PatternedTensor(torch.tensor([enc(v, sem) for v in vals], dtype=dt).reshape(ish[k]), default=zero)
+                        snapA = {k: v.to_dense().clone() for k, v in Am.items()}
+                        snapB = {k: v.to_dense().clone() for k, v in Bm.items()}
+                        Y = multi_mv(Am, Bm, transpose=transpose)
+                    except ptinv.RepInvariantError as e:
+                        r.bad('representation-invariant', 'multi.multi_mv', sem, str(e), ('MR', ri, amask), key)
+                        continue
+                    except Exception as e:
+                        r.exc(e, sem, ('MR', ri, amask), key, msg='multi_mv rows %r columns %r A-blocks %r b-blocks %r transpose=%s %s: %s: %s' % (RSHAPES[ri][0], RSHAPES[ri][1], present, sorted(bblocks), transpose, sem, type(e).__name__, str(e)[:150]))
+                        continue
+                    if set(Am.keys()) != set(snapA) or set(Bm.keys()) != set(snapB) or any(not torch.equal(Am[k].to_dense(), v) for k, v in snapA.items()) or any(not torch.equal(Bm[k].to_dense(), v) for k, v in snapB.items()):
+                        r.bad('argument-modified', 'multi.multi_mv', sem, 'multi_mv changed its arguments', ('MR', ri, amask), key)
+                        continue
+                    yw = []
+                    for i in range(NO):
+                        if sem in ('real', 'log'):
+                            acc = Fraction(0)
+                            for j in range(NI):
+                                acc = IR.addx(acc, IR.mulx(M[i][j], bv[j]))
+                            yw.append(enc(acc, sem))
+                        elif sem == 'bool':
+                            yw.append(any(enc(M[i][j], 'bool') and enc(bv[j], 'bool') for j in range(NI)))
+                        else:
+                            yw.append(max([-inf] + [(-inf if (enc(M[i][j], sem) == -inf or enc(bv[j], sem) == -inf) else enc(M[i][j], sem) + enc(bv[j], sem)) for j in range(NI)]))
+                    yg = [zero] * NO
+                    bad = None
+                    for k in Y.keys():
+                        if k not in osh:
+                            bad = 'result has a block %r outside the result index set' % (k,)
+                            break
+                        t = Y[k].to_dense()
+                        if tuple(t.shape) != tuple(osh[k]):
+                            bad = 'result block %s has shape %r, expected %r' % (k, tuple(t.shape), tuple(osh[k]))
+                            break
+                        for j, v in enumerate(t.reshape(-1).tolist()):
+                            yg[ooff[k] + j] = v
+                    if bad is None and not close_list(yg, yw, sem):
+                        bad = 'multi_mv gives %r, dense product %r' % (yg, yw)
+                    if bad:
+                        r.bad('mv-not-dense-product', 'multi.multi_mv', sem + ('/transpose' if transpose else ''), '%s rows %r columns %r A-blocks %r b-blocks %r transpose=%s reversed-keys=%s: %s' % (sem, RSHAPES[ri][0], RSHAPES[ri][1], present, sorted(bblocks), transpose, rev, bad), ('MR', ri, amask), key)
+                    else:
+                        r.ok(key, outcome=(sem, 'MR', 'T' if transpose else 'N'), nontrivial=bool(present) and bmask > 0)
 
 
 def part_m(si, amask, r, case):
